@@ -6,7 +6,7 @@ MUT="$1"; ID="$2"; CHECKS="$3"
 OUT=/verif/seeded/$ID
 mkdir -p "$OUT"
 cd "$MUT" || exit 2
-export PYTHONPATH="$MUT:/verif/.pydeps:/verif/harness/shims" NUMBA_BOUNDSCHECK=1 PYTHONDONTWRITEBYTECODE=1
+export PYTHONPATH="$MUT:/verif/.pydeps:/verif/harness/shims:/verif/harness" NUMBA_BOUNDSCHECK=1 PYTHONDONTWRITEBYTECODE=1
 # the agent's patch.diff is the deliverable: start from a pristine tree and apply exactly that
 # (never `git stash`: the stash is shared by all worktrees of the repository)
 cp patch.diff "$OUT/patch.diff"
